@@ -140,6 +140,8 @@ func runAttack(c AttackCase) core.Result {
 		panic(err)
 	}
 	defer ln.Close()
+	var honestMu sync.Mutex
+	var honestPeers []*speer.Peer
 	go func() {
 		for {
 			conn, err := ln.Accept()
@@ -151,6 +153,9 @@ func runAttack(c AttackCase) core.Result {
 				if err != nil {
 					return
 				}
+				honestMu.Lock()
+				honestPeers = append(honestPeers, p)
+				honestMu.Unlock()
 				speer.Serve(p, speer.Behaviour{DelayPerBlockMs: 8}, F, pl, infoBytes)
 			}()
 		}
@@ -235,12 +240,12 @@ func runAttack(c AttackCase) core.Result {
 	if seeding {
 		// wait until seeding, then an honest leecher takes everything
 		ok := false
-		for i := 0; i < 400 && !ok; i++ {
+		for i := 0; i < 1500 && !ok; i++ {
 			ok = tor.Stats().Status == torrent.Seeding
 			time.Sleep(10 * time.Millisecond)
 		}
 		if !ok {
-			return stuck("the torrent did not reach Seeding within 4 s on complete, correct files")
+			return stuck("the torrent did not reach Seeding within 15 s on complete, correct files")
 		}
 		var p *speer.Peer
 		for try := 0; try < 40; try++ {
@@ -263,7 +268,20 @@ func runAttack(c AttackCase) core.Result {
 		case err := <-tor.NotifyStop():
 			return stuck(fmt.Sprintf("the torrent stopped by itself while under attack (%v)", err))
 		case <-time.After(20 * time.Second):
-			return stuck("the download from the honest seeder did not complete within 20 s while other peers misbehaved")
+			// stuck-state predicate: the honest seeder is connected right now (its one connection may have been lost to
+			// a handshake timeout on a loaded machine, and the client is not given its address twice)
+			connected := false
+			honestMu.Lock()
+			for _, p := range honestPeers {
+				if !p.Closed() {
+					connected = true
+				}
+			}
+			honestMu.Unlock()
+			if !connected {
+				return core.Result{Inconcl: "the honest seeder is not connected at the deadline"}
+			}
+			return stuck("the download from the connected honest seeder did not complete within 20 s while other peers misbehaved")
 		}
 	}
 	wg.Wait()
